@@ -415,6 +415,8 @@ pub struct XlsbBook {
     /// (C16: BrtBookView and friends; before fix 889c07c `read_workbook` scanned the payload of records it does not
     /// know as record ids)
     pub workbook_pre: Vec<(u16, Vec<u8>)>,
+    /// relationship id of every sheet (an NCName: no XML-special characters); `None` = `rId1`, `rId2`, … (C16)
+    pub rel_ids: Option<Vec<String>>,
     /// extra records `(id, payload)` written in styles.bin between BrtEndFmts and BrtBeginCellXFs (where Excel puts
     /// fonts, fills, borders and the cell style XFs), framed by the book's framing
     pub styles_pre: Vec<(u16, Vec<u8>)>,
@@ -449,9 +451,17 @@ impl XlsbBook {
             vba: None,
             extra_parts: vec![],
             workbook_pre: vec![],
+            rel_ids: None,
             styles_pre: vec![],
             raw_parts: vec![],
             sst_extras: None,
+        }
+    }
+    /// the relationship id of sheet `i`
+    pub fn rel_id(&self, i: usize) -> String {
+        match &self.rel_ids {
+            Some(v) => v[i].clone(),
+            None => format!("rId{}", i + 1),
         }
     }
     pub fn sheet_path(&self, i: usize) -> String {
@@ -480,7 +490,7 @@ impl XlsbBook {
             if s.no_rel {
                 p.extend_from_slice(&0xFFFF_FFFFu32.to_le_bytes());
             } else {
-                p.extend_from_slice(&wide_str(&format!("rId{}", i + 1)));
+                p.extend_from_slice(&wide_str(&self.rel_id(i)));
             }
             p.extend_from_slice(&wide_str(&s.name));
             fr.rec(&mut o, 0x009C, &p); // BrtBundleSh
@@ -519,8 +529,8 @@ impl XlsbBook {
                 continue;
             }
             s.push_str(&format!(
-                "<Relationship Id=\"rId{}\" Type=\"http://schemas.openxmlformats.org/officeDocument/2006/relationships/worksheet\" Target=\"{}\"/>",
-                i + 1,
+                "<Relationship Id=\"{}\" Type=\"http://schemas.openxmlformats.org/officeDocument/2006/relationships/worksheet\" Target=\"{}\"/>",
+                self.rel_id(i),
                 self.sheet_path(i)
             ));
         }
